@@ -227,7 +227,7 @@ print("property holds on this case")
 
 def write_replay(v):
     pid = v["property"]
-    d = os.path.join(ROOT, "replays", pid)
+    d = os.path.join(os.environ.get("VERIF_REPLAY_DIR") or os.path.join(ROOT, "replays"), pid)
     os.makedirs(d, exist_ok=True)
     blob = json.dumps(v, sort_keys=True, indent=1, default=str)
     sha = hashlib.sha256(blob.encode()).hexdigest()[:12]
@@ -271,7 +271,7 @@ def write_evidence(pid, ctx, level, coverage, assumptions, wall_s, violations):
         pass
     except FileNotFoundError:
         pass
-    d = os.path.join(ROOT, "evidence")
+    d = os.environ.get("VERIF_EVIDENCE_DIR") or os.path.join(ROOT, "evidence")
     os.makedirs(d, exist_ok=True)
     tmp = os.path.join(d, f".{pid}.json.tmp")
     with open(tmp, "w") as f:
